@@ -751,19 +751,14 @@ def r3_bounds(ctx, ents, cl, krate_prefix="cascette_", discharged=DISCHARGED_R3)
     ctx.info("C02.R4 overflow asserts: %s" % dict(ocnt))
 
 
-def r5_bounded_recursion(ctx, ents, cl):
-    """nesting in the input must not become nesting on the stack without a limit: every recursive cycle in the parser closure carries a depth
-    counter - an integer parameter that the recursive call passes on incremented and that is compared against a limit before the call - or
-    is discharged by key. A stack overflow is not an error return: the process is killed (SIGABRT), catch_unwind does not help."""
-    rule = "C02.R5"
-    ctx.rule(rule, "every recursive cycle among workspace functions in the parser closure has a depth counter that is compared with a limit")
-    prog = ctx.prog
-    nodes = [b for b in cl if prog.bodies[b].krate.startswith("cascette_")]
+def recursive_cycles(prog, cl, prefixes=("cascette_",)):
+    """[(cycle members, has a compared depth counter)] for the recursive call-graph cycles among workspace functions in `cl`"""
+    nodes = [b for b in cl if prog.bodies[b].krate.startswith(prefixes)]
     root_of = {b: (prog.bodies[b].root or b) for b in nodes}
     succ = collections.defaultdict(set)
     for b in nodes:
         for c in prog.bodies[b].calls:
-            if c.id in prog.bodies and c.id in cl and prog.bodies[c.id].krate.startswith("cascette_"):
+            if c.id in prog.bodies and c.id in cl and prog.bodies[c.id].krate.startswith(prefixes):
                 tgt = root_of.get(c.id, c.id)
                 if tgt == root_of[b] and c.id != tgt:
                     continue      # a function calling its own closure (tracing macros) is not recursion
@@ -799,9 +794,8 @@ def r5_bounded_recursion(ctx, ents, cl):
     for v in sorted(set(root_of.values())):
         if v not in index:
             strong(v)
-    n = 0
+    out = []
     for comp in sorted(sccs):
-        n += 1
         members = set(comp)
         bounded = False
         for m in comp:
@@ -858,6 +852,20 @@ def r5_bounded_recursion(ctx, ents, cl):
                                     cmp_fields |= {tuple(x) for x in sa.fields}
             if inc_fields & cmp_fields:
                 bounded = True
+        out.append((comp, bounded))
+    return out
+
+
+def r5_bounded_recursion(ctx, ents, cl):
+    """nesting in the input must not become nesting on the stack without a limit: every recursive cycle in the parser closure carries a depth
+    counter - an integer parameter that the recursive call passes on incremented and that is compared against a limit before the call, or a
+    field of the parser object that is incremented and compared - or is discharged by key. A stack overflow is not an error return: the process
+    is killed (SIGABRT), catch_unwind does not help."""
+    rule = "C02.R5"
+    ctx.rule(rule, "every recursive cycle among workspace functions in the parser closure has a depth counter that is compared with a limit")
+    prog = ctx.prog
+    cycles = recursive_cycles(prog, cl)
+    for comp, bounded in cycles:
         key = [ctx._stable(comp[0]), "recursion", len(comp)]
         k0 = ctx._stable("|".join([rule] + [str(x) for x in key]))
         ctx.saw(prog.bodies[comp[0]])
@@ -870,7 +878,8 @@ def r5_bounded_recursion(ctx, ents, cl):
                     "recursive cycle %s in the parser closure has no depth counter that is compared with a limit: input nested deeply enough overflows the "
                     "stack, which kills the process (SIGABRT) instead of returning an error" % " -> ".join(ctx._stable(x).split("::")[-1] for x in comp + comp[:1]),
                     prog.bodies[comp[0]].loc(), {"cycle": [ctx._stable(x) for x in comp]})
-    ctx.info("C02.R5: %d recursive cycle(s) in the parser closure" % n)
+    ctx.floor(rule, len(cycles), 2, "recursive cycles in the parser closure")
+    ctx.info("C02.R5: %d recursive cycle(s) in the parser closure" % len(cycles))
 
 
 DISCHARGED_R5 = {}
@@ -885,4 +894,4 @@ def run(ctx):
 
 
 from .selftest import for_families as _ff  # noqa: E402
-selftest = _ff(['taint', 'panic', 'bounds'])
+selftest = _ff(['taint', 'panic', 'bounds', 'recursion'])
